@@ -12,7 +12,7 @@ from ..oracle import certcheck
 OPS = ["parse", "codegen", "symbols"]
 KINDS = ["loop", "if", "macro", "const", "brace", "import"]
 KNOBS = {"p_macro": 0.8, "max_macros": 3, "p_loop": 1.0, "p_if": 1.0, "p_import": 0.5, "max_bytes": 400, "top_stmts": 12, "blk_in_loops": False,
-         "dead_defs_invisible": True, "p_macro_name_clash": 0.15, "p_pc_const": 0.0}
+         "dead_defs_invisible": True, "p_macro_name_clash": 0.15, "p_pc_const": 0.0, "p_macro_segment": 0.3}
 
 
 def build(seed_int, kinds, blk_in_loops=False):
